@@ -112,6 +112,18 @@ func hasTier(ob Obligation, tier string) bool {
 	return false
 }
 
+// foreignAssert: assertions that ride along in shared helpers but belong to one property only (the C15
+// frame/release conditions inside the round-trip helpers and the C12 history harness) are reported by that
+// property's obligations alone. All other assertions are reported by every obligation that reaches them.
+func foreignAssert(id, prop string) bool {
+	for _, pre := range []string{"C15."} {
+		if strings.HasPrefix(id, pre) && !strings.HasPrefix(pre, prop) {
+			return true
+		}
+	}
+	return false
+}
+
 func pkgPath(m sym.Module, rel string) string {
 	if rel == "" {
 		return m.Path
@@ -322,7 +334,16 @@ func cmdCheck(args []string) int {
 	for _, gk := range gkeys {
 		g := groups[gk]
 		m := sym.Modules[g.module]
-		prog, err := sym.Load(*root, m, g.models, nil)
+		var need []string
+		seenPkg := map[string]bool{}
+		for _, ob := range g.obs {
+			pp := pkgPath(m, ob.Pkg)
+			if !seenPkg[pp] {
+				seenPkg[pp] = true
+				need = append(need, pp)
+			}
+		}
+		prog, err := sym.Load(*root, m, g.models, need)
 		if err != nil {
 			machinery = append(machinery, "load "+g.module+": "+err.Error())
 			continue
@@ -369,6 +390,18 @@ func cmdCheck(args []string) int {
 			ex.Run()
 			r.ex = ex
 			r.wall = time.Since(t1)
+			// an assertion named after another property (e.g. the C15 frame condition inside the round-trip
+			// helpers) is decided by that property's own obligations, not reported under this one
+			{
+				keep := ex.Viol[:0]
+				for _, v := range ex.Viol {
+					if v.Kind == "assert" && foreignAssert(v.AssertID, *property) {
+						continue
+					}
+					keep = append(keep, v)
+				}
+				ex.Viol = keep
+			}
 			for _, a := range ob.Asserts {
 				if ex.Reached[a] == 0 {
 					r.vacuous = append(r.vacuous, a)
@@ -785,7 +818,7 @@ func cmdReplay(args []string) int {
 		return 2
 	}
 	m := sym.Modules[rf.Module]
-	prog, err := sym.Load(*root, m, rf.Models, nil)
+	prog, err := sym.Load(*root, m, rf.Models, []string{pkgPath(m, rf.Pkg)})
 	if err != nil {
 		fmt.Fprintln(os.Stderr, err)
 		return 2
